@@ -138,6 +138,10 @@ func newVC(L *Loaded, top *ssa.Function) *VC {
 		if p == pkg {
 			return ""
 		}
+		// internal/sync.Mutex and sync.Mutex must not share a name
+		if strings.HasPrefix(p.Path(), "internal/") {
+			return strings.ReplaceAll(p.Path(), "/", "_")
+		}
 		return p.Name()
 	})
 	return vc
